@@ -77,6 +77,39 @@ def strategy(tier):
     return _case()
 
 
+# samples with more events than any generated one: just beyond 2**16, and an exact multiple of 100000 (sizes at which
+# event-block-wise processing has its seams), two or three channels with different amplifier settings in one call
+def curated():
+    out = []
+    for n, route in ((70001, 'rfi'), (100000, 'rfi_mef'), (200000, 'rfi_mef'), (65537, 'transform')):
+        spec = dict(version='FCS3.0', datatype='I', byteord='1,2,3,4', widths=[16, 16, 16], ranges=[1024, 1024, 4096],
+                    names=['FSC-H', 'FL1-H', 'FL2-H'], pne=['0,0', '4.0,1.0', '4.5,0.1'], png=['2.5', None, None], pnv=[None] * 3, pns=[None] * 3,
+                    n=n, data_seed=n % 97)
+        specials = []
+        for j, R in enumerate(spec['ranges']):
+            for i, v in enumerate([0, 1, R - 2, R - 1]):
+                specials.append([(n - 1 - 4 * j - i) if i % 2 else (4 * j + i), j, v])       # limits sit in the first and in the last rows
+        spec['specials'] = specials
+        out.append(dict(form='list', override=None, spec=spec, sel=[0, 1, 2], spell=['name', 'pos', 'neg'], route=route,
+                        m=[1.1, 0.9, 1.0], b=[2.0, 3.0, 1.0], fxn='sqrt', p=1.0, gate_channels='all', derived=None))
+    return out
+
+
+def exhaustive_jobs(tier):
+    return curated()
+
+
+def run_job(job):
+    from pbt.runner import Obs
+    obs = Obs()
+    try:
+        check(job, obs)
+    except Exception as e:
+        obs.failures.append(('crash', 'curated large sample: %s: %s' % (type(e).__name__, e)))
+    return dict(evaluations=1, nontrivial=1, failures=[(t, m, job) for t, m in obs.failures[:5]],
+                labels={'curated:%d_events' % job['spec']['n']: 1}, claims=dict(obs.claims), samples=[], complete=True)
+
+
 def evidence_extra(tier):
     try:
         from numpy._core._multiarray_umath import __cpu_features__ as f
